@@ -1378,6 +1378,22 @@ def rule_r9(chk, prog, reg):
                 if any(n_ in inner_nodes for n_ in p.nodes):
                     continue
                 if p.end is not fcfg.node_of[id(ol)]:
+                    # the loop over the passes is left (break / return)
+                    # without this pass having been swept: the remaining
+                    # passes - the last one with all enabled mutators among
+                    # them - never run
+                    if p.end is not fcfg.raise_exit:
+                        nskip += 1
+                        chk.check('C14.R9', where, f'{describe_path(p)}: '
+                                  'the loop over the passes is not left '
+                                  'before the last pass', False,
+                                  'an iteration of the loop over the passes '
+                                  'leaves the loop (break / return) without '
+                                  'a sweep: every later pass, the last one '
+                                  'with all enabled mutators included, is '
+                                  'skipped - e.g. whenever an early prelude '
+                                  'pass is empty', loc=m.loc(ol),
+                                  nontrivial=True)
                     continue
                 nskip += 1
                 curs = set()
